@@ -1,6 +1,6 @@
 import numpy as np
 from scipy.linalg import orthogonal_procrustes
-from sklearn.base import MultiOutputMixin, RegressorMixin
+from sklearn.base import MultiOutputMixin, RegressorMixin, clone
 from sklearn.linear_model import LinearRegression
 from sklearn.utils import check_array, check_X_y
 from sklearn.utils.validation import check_is_fitted
@@ -76,7 +76,7 @@ class OrthogonalRegression(MultiOutputMixin, RegressorMixin):
             linear_estimator = (
                 LinearRegression()
                 if self.linear_estimator is None
-                else self.linear_estimator
+                else clone(self.linear_estimator)
             )
             # compute orthogonal projectors
             linear_estimator.fit(X, y)
